@@ -76,7 +76,8 @@ def build_items(case: Case) -> list[Item]:
             if op[0] == "parse":
                 r = structs.parse(cs, case.tname, op[1], op[2])
                 m = f"(read_top {cfg} {ty} {canon.cbytes(op[1])} {cz(op[2])})"
-                items.append(Item(case, op, f"rvz_eqb {m} {structs.read_result_term(r, T)}", m, r))
+                cmpf = f"rvz_eqb_compiled {cz(len(op[1]))}" if case.compiled else "rvz_eqb"
+                items.append(Item(case, op, f"{cmpf} {m} {structs.read_result_term(r, T)}", m, r))
             elif op[0] == "dump":
                 r = structs.parse(cs, case.tname, op[1], op[2])
                 if r[0] != "ok":
